@@ -234,6 +234,16 @@ func TestCorpusC13(t *testing.T) {
 		if err != nil {
 			t.Fatalf("%s: %v", f, err)
 		}
+		var sk syskillReplay
+		if err := json.Unmarshal(r.Script, &sk); err == nil && sk.Kind == "ss" {
+			// a failure of the syscall-level crash sweep: same script, same kill point
+			if syskillUnavailable("C13") {
+				continue
+			}
+			sig, detail, _, _, _ := runSyskillSS(t, fmt.Sprintf("%s/r%d", base, i), sk.SS, 0, 0, sk.Point)
+			corpusResult(t, "C13", f, sig, detail)
+			continue
+		}
 		var script store.SSScript
 		if err := json.Unmarshal(r.Script, &script); err != nil {
 			t.Fatalf("%s: %v", f, err)
